@@ -286,11 +286,15 @@ func appDecide(cur *RefConf, cc *pb.ConfChangeV2) (ccDecision, *RefConf) {
 	if n, err := cur.Apply(cc); err == nil {
 		return ccApply, n
 	}
+	// "ApplyConfChange must be called one way or the other" (README step 3):
+	// the only way to cancel is to zero the node ids. If even the zeroed change
+	// is not applicable to the current membership the call is still made (raft
+	// then has no way to proceed; that would be a C14 finding).
 	z := zeroIDs(cc)
 	if n, err := cur.Apply(z); err == nil {
 		return ccCancel, n
 	}
-	return ccSkip, cur
+	return ccCancel, cur
 }
 
 // ---------------------------------------------------------------------------
